@@ -1,0 +1,89 @@
+//go:build verif
+
+// Verification hooks (build tag `verif` only, add-only): let an external harness create an
+// Agent without a cluster and feed it the events of the two configuration watches through
+// the agent's real update functions.  Nothing here is compiled without the tag.
+
+package agent
+
+import (
+	metav1 "k8s.io/apimachinery/pkg/apis/meta/v1"
+	"k8s.io/apimachinery/pkg/runtime"
+
+	"github.com/containers/nri-plugins/pkg/agent/watch"
+)
+
+// VerifNodeName is the node name of agents created by NewVerifAgent.
+const VerifNodeName = "verif-node"
+
+// VerifNamespace is the config namespace of agents created by NewVerifAgent.
+const VerifNamespace = "verif-ns"
+
+// NewVerifAgent creates an Agent through the real constructor, in custom-resource mode
+// (no config file) and without any cluster access, and installs the notification callback
+// exactly as Start does.  No watch is set up and no client is created.
+func NewVerifAgent(cfgIf ConfigInterface, notify NotifyFn) (*Agent, error) {
+	a, err := New(cfgIf,
+		WithKubeConfig(""),
+		WithConfigFile(""),
+		WithConfigNamespace(VerifNamespace),
+		func(a *Agent) error {
+			a.nodeName = VerifNodeName
+			return nil
+		},
+	)
+	if err != nil {
+		return nil, err
+	}
+	a.notifyFn = notify
+	return a, nil
+}
+
+// VerifNodeWatchEvent handles one event of the node-specific config watch the way the
+// select loop of Start does (`case e, ok := <-eventChanOf(a.nodeCfgWatch)`).
+func (a *Agent) VerifNodeWatchEvent(e watch.Event) {
+	switch e.Type {
+	case watch.Added, watch.Modified:
+		a.updateNodeConfig(e.Object)
+	case watch.Deleted:
+		a.updateNodeConfig(nil)
+	}
+}
+
+// VerifGroupWatchEvent handles one event of the group-specific/default config watch the
+// way the select loop of Start does (`case e, ok := <-eventChanOf(a.groupCfgWatch)`).
+func (a *Agent) VerifGroupWatchEvent(e watch.Event) {
+	switch e.Type {
+	case watch.Added, watch.Modified:
+		a.updateGroupConfig(e.Object)
+	case watch.Deleted:
+		a.updateGroupConfig(nil)
+	}
+}
+
+// VerifNodeEvent delivers a node-specific config object (nil = deleted) to updateNodeConfig.
+func (a *Agent) VerifNodeEvent(obj runtime.Object) {
+	if obj == nil {
+		a.updateNodeConfig(nil)
+		return
+	}
+	a.updateNodeConfig(obj)
+}
+
+// VerifGroupEvent delivers a group/default config object (nil = deleted) to updateGroupConfig.
+func (a *Agent) VerifGroupEvent(obj runtime.Object) {
+	if obj == nil {
+		a.updateGroupConfig(nil)
+		return
+	}
+	a.updateGroupConfig(obj)
+}
+
+// VerifNodeCfg returns the agent's stored node-specific config (nil if none).
+func (a *Agent) VerifNodeCfg() metav1.Object { return a.nodeCfg }
+
+// VerifGroupCfg returns the agent's stored group-specific/default config (nil if none).
+func (a *Agent) VerifGroupCfg() metav1.Object { return a.groupCfg }
+
+// VerifCurrentCfg returns the config the agent considers in effect (nil if none).
+func (a *Agent) VerifCurrentCfg() metav1.Object { return a.currentCfg }
